@@ -62,6 +62,7 @@ struct Driver {
             Effect e;
             e.kind = f[0][0]; e.site = f[1]; e.nth = atoi(f[2].c_str());
             e.api = f[3][0]; e.target = f[4][0]; e.ev = atoi(f[5].c_str()); e.id = atoi(f[6].c_str());
+            { std::string key(1, e.kind); key += e.site; e.base = S.calls[key]; }
             S.effects.push_back(e);
             return true;
         }
@@ -78,6 +79,8 @@ struct Driver {
                 tr().line("RET -");
                 break;
             case 'X':
+                // stop() is outside the quantifier of C04: no scripted submissions while it runs
+                S.effects.clear();
                 snprintf(line, sizeof line, "CALL stop %c", cur); tr().line(line);
                 at(cur).stop();
                 tr().line("RET -");
